@@ -14,7 +14,7 @@ from . import common, evalcommon as ec
 PROPERTY = 'C06'
 
 META = {
-    'bounds': {'quick': 'one design: all 4^k fault patterns of up to 5 objective calls (dim<=2, symbolic box); batch of 2 designs with <=3 injected faults',
+    'bounds': {'quick': 'parallel path with one design per batch (5 scripted outcome patterns); one design: all 4^k fault patterns of up to 5 objective calls (dim<=2, symbolic box); batch of 2 designs with <=3 injected faults',
                'thorough': 'batch of 2 designs with all patterns (<=6 injected faults), batch of 3 with <=5 faults; one design dim<=3, <=2 constraints'},
     'stubs': ['Problem.evaluate -> uninterpreted function + symbolic fault choice per call',
               'random() (artap.utils) -> fresh real in [0,1)',
